@@ -325,11 +325,21 @@ impl Check for C07 {
     fn generate(&self, u: &mut Unstructured, _tier: Tier) -> Option<Case> {
         let mut t = Tape::new(u);
         let c = corpus();
-        let (project, origin) = match t.weighted(&[20, 30, 15, 15, 20, 12]) {
+        let (project, origin) = match t.weighted(&[20, 30, 15, 15, 20, 25]) {
             5 => {
-                // a full-size valid generated program (the sizes C01 uses)
+                // a full-size valid generated program (the sizes C01 uses), with a random subset of its type
+                // annotations erased (inference does more work then)
                 let p = Gen::new(&mut t, GenCfg::core(false)).program();
-                (Project::single(print_program(&p, &SurfacePlan::default()).text), "generated-valid")
+                let mut plan = SurfacePlan::default();
+                match t.below(3) {
+                    0 => {}
+                    1 => plan.annot_default = (false, false, false),
+                    _ => {
+                        plan.annot_default = (false, false, false);
+                        plan.annot = syltmodel::print::Choices((0..300).map(|_| if t.bool() { 1 } else { 0 }).collect());
+                    }
+                }
+                (Project::single(print_program(&p, &plan).text), "generated-valid")
             }
             0 => {
                 let mut p = Project::single(soup(&mut t));
